@@ -376,25 +376,60 @@ def rule_g_prior_share_same_arguments(ctx, fns):
     return n
 
 
-def rule_h_tof_index_passed(ctx, fns):
+RELATED = (
+    "stir::ProjData::get_related_viewgrams",
+    "stir::ProjData::get_empty_related_viewgrams",
+    "stir::ProjDataInfo::get_empty_related_viewgrams",
+)
+
+
+def rule_h_tof_index_passed(ctx, fns, extra=()):
     """ProjData::get_(empty_)related_viewgrams(indices, symmetries, make_odd, timing_pos) OVERWRITES the TOF index of `indices` with its
-    last argument (default 0).  The Hessian routines iterate over ViewgramIndices that carry their TOF index, so every such request must
-    pass `indices.timing_pos_num()` explicitly - otherwise all TOF bins are read from / written to TOF bin 0 and the Hessian product of
-    TOF data is wrong."""
+    last argument (default 0).  Two obligations per request in the likelihood code:
+      * in the objective function's own routines (which iterate over ViewgramIndices that carry their TOF index) the request passes
+        `indices.timing_pos_num()` explicitly;
+      * in a helper that is handed the TOF index as a separate value (distributable.cxx get_viewgrams), all requests for the same
+        indices pass the SAME TOF argument, and none falls back to the default once one request names a TOF index (contradiction
+        rule: measured, additive and multiplicative viewgrams of one call belong to one TOF bin).
+    Otherwise every TOF bin is read from / back-projected as TOF bin 0."""
     n = 0
     seen = set()
+
+    def related_calls(f):
+        return [c for c in f.calls() if (c.callee or "") in RELATED and len(c.call_args()) == 4]
+
     for f in fns:
         if f.body is None or f.is_dependent or f.cls != CLS or (f.file, f.line) in seen:
             continue
-        calls = [c for c in f.calls() if (c.callee or "") in ("stir::ProjData::get_related_viewgrams", "stir::ProjData::get_empty_related_viewgrams") and len(c.call_args()) == 4 and "ViewgramIndices" in (c.callee_info.get("sig") or "").split(",")[0]]
+        calls = [c for c in related_calls(f) if "ViewgramIndices" in (c.callee_info.get("sig") or "").split(",")[0]]
         if not calls:
             continue
         seen.add((f.file, f.line))
         for i, c in enumerate(calls):
             a = [key(x.strip()) for x in c.call_args()]
-            ok = a[3] == a[0] + ".timing_pos_num()"
+            ok = a[3] == a[0] + ".timing_pos_num()" and not c.call_args()[3].strip().get("defarg")
             ctx.ob("C05.h-tof-index-passed", f.qn + "(" + f.sig[:30] + ")", "%s@%d" % (c.callee.split("::")[-1], i), ok, c.where(), "the TOF index of the viewgram indices is passed explicitly" if ok else "the request is made with TOF index `%s` instead of the TOF index of the viewgram indices it is made for: every TOF bin uses the data of TOF bin %s" % (key(c.call_args()[3], True), key(c.call_args()[3], True)))
             n += 1
+    for f in extra:
+        if f.body is None or (f.file, f.line) in seen:
+            continue
+        calls = related_calls(f)
+        if not calls:
+            continue
+        seen.add((f.file, f.line))
+        groups = {}
+        for i, c in enumerate(calls):
+            groups.setdefault(key(c.call_args()[0].strip()), []).append((i, c))
+        for _first, grp in groups.items():
+            explicit = sorted({key(c.call_args()[3].strip(), True) for _i, c in grp if not c.call_args()[3].strip().get("defarg")})
+            for i, c in grp:
+                a3 = c.call_args()[3].strip()
+                if not explicit:
+                    # nothing in this function names a TOF index: no belief to contradict (non-TOF helper)
+                    continue
+                ok = not a3.get("defarg") and len(explicit) == 1
+                ctx.ob("C05.h-tof-index-passed", f.qn, "%s@%d" % (c.callee.split("::")[-1], i), ok, c.where(), "same TOF index `%s` as the function's other requests for these indices" % key(a3, True) if ok else ("the request leaves the TOF index at its default (0) while the function's other requests for the same indices pass `%s`: for TOF bin k != 0 these viewgrams belong to TOF bin 0" % ", ".join(explicit) if a3.get("defarg") else "requests for the same indices pass different TOF indices: %s" % ", ".join(explicit)))
+                n += 1
     return n
 
 
@@ -434,8 +469,8 @@ def run(ctx):
 
     lockstep_sweep(ctx, "C05.e-elementwise-sums", allf)
     ctx.require_count("C05.e-elementwise-sums", 5)
-    rule_h_tof_index_passed(ctx, fns)
-    ctx.require_count("C05.h-tof-index-passed", 7)
+    rule_h_tof_index_passed(ctx, fns, extra=[f for f in units[3].functions if f.qn == "stir::get_viewgrams"])
+    ctx.require_count("C05.h-tof-index-passed", 12)
     rule_g_prior_share_same_arguments(ctx, allf)
     ctx.require_count("C05.g-prior-share-same-arguments", 3)
     rule_f_one_segment_range(ctx, [f for f in units[0].functions if not f.is_dependent or True])
